@@ -2,6 +2,8 @@
 package c08
 
 import (
+	"sync"
+	"github.com/libp2p/go-libp2p/core/crypto"
 	"bytes"
 	"crypto/elliptic"
 	"crypto/sha256"
@@ -496,3 +498,96 @@ func TestSizeSweep(t *testing.T) {
 	}
 	P.SetExtra("size_sweep_tokens", n)
 }
+
+// ---------- concurrent sealing / unsealing ----------
+
+// ConcAddr: goroutines seal and unseal DIFFERENT tokens through the streaming and the buffered APIs at the same
+// time; every CID reported must be the address of the bytes it goes with.
+type ConcAddr struct {
+	Toks       []tok.Tok `json:"toks"`
+	Goroutines int       `json:"goroutines"`
+	Rounds     int       `json:"rounds"`
+}
+
+func runConcAddr(c *h.Ctx, ca ConcAddr) {
+	type job struct {
+		tk     token.Token
+		priv   crypto.PrivKey
+		sealed []byte
+	}
+	var jobs []job
+	for _, d := range ca.Toks {
+		tk, priv, err := tok.Build(d)
+		if err != nil {
+			continue
+		}
+		var sealed []byte
+		switch x := tk.(type) {
+		case *delegation.Token:
+			sealed, _, err = x.ToSealed(priv)
+		case *invocation.Token:
+			sealed, _, err = x.ToSealed(priv)
+		}
+		if err != nil {
+			continue
+		}
+		jobs = append(jobs, job{tk, priv, sealed})
+	}
+	if len(jobs) < 2 {
+		return
+	}
+	var mu sync.Mutex
+	bad := ""
+	report := func(s string) {
+		mu.Lock()
+		if bad == "" {
+			bad = s
+		}
+		mu.Unlock()
+	}
+	pv := h.Concurrently(ca.Goroutines, func(g int) {
+		for r := 0; r < ca.Rounds; r++ {
+			j := jobs[(g+r)%len(jobs)]
+			var buf bytes.Buffer
+			var id cid.Cid
+			var err error
+			switch x := j.tk.(type) {
+			case *delegation.Token:
+				id, err = x.ToSealedWriter(&buf, j.priv)
+			case *invocation.Token:
+				id, err = x.ToSealedWriter(&buf, j.priv)
+			}
+			if err != nil || !cidOK(id, buf.Bytes()) {
+				report(fmt.Sprintf("ToSealedWriter under concurrency: CID %s is not the address of the %d bytes written (err=%v)", id, buf.Len(), err))
+				return
+			}
+			if _, id2, err := token.FromSealedReader(iotest.OneByteReader(bytes.NewReader(j.sealed))); err != nil || !cidOK(id2, j.sealed) {
+				report(fmt.Sprintf("FromSealedReader under concurrency: CID %s is not the address of the bytes read (err=%v)", id2, err))
+				return
+			}
+			if _, id3, err := token.FromSealed(j.sealed); err != nil || !cidOK(id3, j.sealed) {
+				report(fmt.Sprintf("FromSealed under concurrency: CID %s is not the address of the bytes (err=%v)", id3, err))
+				return
+			}
+		}
+	})
+	if pv != nil {
+		c.Fail("C08/concurrent/panic", "panic while sealing / unsealing concurrently: %v", pv)
+	}
+	if bad != "" {
+		c.Fail("C08/concurrent/address", "%s", bad)
+	}
+	c.P.NonTrivial([]any{"concaddr", len(jobs), ca.Goroutines, ca.Rounds}, map[string]any{"kind": "concurrent-address", "tokens": len(jobs), "goroutines": ca.Goroutines, "rounds": ca.Rounds})
+	c.P.Class(fmt.Sprintf("concurrent/goroutines=%d", ca.Goroutines))
+}
+
+var concAddrProp = h.Define(P, "concaddr", func(t *rapid.T) ConcAddr {
+	ca := ConcAddr{Goroutines: rapid.IntRange(2, 8).Draw(t, "goroutines"), Rounds: rapid.IntRange(10, 60).Draw(t, "rounds")}
+	n := rapid.IntRange(2, 5).Draw(t, "ntoks")
+	for i := 0; i < n; i++ {
+		ca.Toks = append(ca.Toks, tok.Gen(t, tok.GenCfg{Algs: []keys.Alg{keys.Ed25519, keys.Ed25519, keys.Secp256k1, keys.P256}, NoTopNull: true, OnlyFuture: true, Values: val.Cfg{Depth: 1, MaxLen: 2, SafeInts: true, NoFloat: true}}))
+	}
+	return ca
+}, runConcAddr)
+
+func TestConcurrentAddress(t *testing.T) { concAddrProp.Check(t) }
